@@ -239,6 +239,10 @@ func (r *LockRun) Apply(op wx.Op) (res wx.Result) {
 			}
 			// exhausted: the query closed itself
 			r.qs = append(append([]*lq{}, r.qs[:idx]...), r.qs[idx+1:]...)
+			if !panics(func() { q.q.Close() }) {
+				x := r.fail("close-after-exhaustion:no-panic", name+": closing a query that was exhausted (and so released its lock) did not panic")
+				return &x
+			}
 			return nil
 		}
 		if !ok {
@@ -325,6 +329,10 @@ func (r *LockRun) Apply(op wx.Op) (res wx.Result) {
 		q := r.qs[op.A]
 		q.q.Close()
 		r.qs = append(append([]*lq{}, r.qs[:op.A]...), r.qs[op.A+1:]...)
+		// a lock is released exactly once: closing again is refused and does not release anybody else's lock
+		if !panics(func() { q.q.Close() }) {
+			return r.fail("close-twice:no-panic", name+": closing the query a second time did not panic")
+		}
 	case LkToggle:
 		// after the last lock was released, structural operations succeed again
 		if w.Has(r.e[5], r.z) {
